@@ -77,6 +77,8 @@ func runTreeProp(c *Ctx, which string) {
 	c.Res.Rule = treeRules[which]
 	orc := &OracleBatch{c: c}
 	what := map[string]string{"spans": "span-invariant", "coverage": "coverage", "grammar": "node-grammar", "shapes": "span-shape"}[which]
+	corr := &Batch{c: c}
+	defer corr.Flush()
 
 	one := func(idx int, fam string, doc []byte) {
 		stream := idx%4 == 3
@@ -112,6 +114,20 @@ func runTreeProp(c *Ctx, which string) {
 			c.fam(fam, "nontrivial", 1)
 			if len(doc) < 60 && len(doc) > 8 {
 				c.sample(map[string]interface{}{"input": printable(doc), "roots": len(res.roots), "nodes": nodes, "streaming": stream})
+			}
+		}
+		if which == "grammar" {
+			// the public accessors against the Lean model's reading of the same tree (HeadingLevel, IsOrderedList,
+			// IsTightList, ListItemNumber of every block, in document order)
+			for _, r := range res.roots {
+				var parts []string
+				cm.Walk(r.AsNode(), &cm.WalkOptions{Pre: func(cur *cm.Cursor) bool {
+					if b := cur.Node().Block(); b != nil {
+						parts = append(parts, fmt.Sprintf("%d:%d:%s:%s:%d", int(b.Kind()), b.HeadingLevel(), b01(b.IsOrderedList()), b01(b.IsTightList()), b.ListItemNumber(r.Source)))
+					}
+					return true
+				}})
+				corr.Add("acc\t"+hx(r.Source)+"\t"+wireRoot(r), strings.Join(parts, " "))
 			}
 		}
 		if which == "spans" && len(doc) <= 1500 && idx%2 == 0 {
